@@ -3,6 +3,7 @@
 package zzverif
 
 import (
+	"time"
 	"regexp"
 	"encoding/json"
 	"fmt"
@@ -214,6 +215,10 @@ func cexInto(label string, ptr interface{}) {
 	if Filler != nil && Filler(label, ptr) {
 		return
 	}
+	if tp, ok := ptr.(*time.Time); ok {
+		*tp = time.Unix(cexInt(label+"[0]"), cexInt(label+"[1]")).UTC()
+		return
+	}
 	fill(label, reflect.ValueOf(ptr).Elem())
 }
 
@@ -373,3 +378,24 @@ func DecStrOK(s string, places uint32) bool {
 }
 
 func DecPlain(s string) bool { return !strings.ContainsAny(s, "eE") }
+
+// ---- accessors for package-specific fillers (replay)
+
+func CexHas(label string) bool    { _, ok := cexRaw(label); return ok }
+func CexBool(label string) bool   { return cexBool(label) }
+func CexInt(label string) int64   { return cexInt(label) }
+func CexStr(label string) string  { return cexStr(label) }
+func CexBig(label string) *big.Int {
+	v, ok := cexRaw(label)
+	if !ok {
+		return big.NewInt(0)
+	}
+	return parseSMTInt(v)
+}
+func CexRat(label string) *big.Rat {
+	v, ok := cexRaw(label)
+	if !ok {
+		return new(big.Rat)
+	}
+	return parseSMTReal(v)
+}
